@@ -560,6 +560,14 @@ func (c *client) receive(r io.Reader) (err error) {
 		cellsLen = header.CellBlockMeta.GetLength()
 	}
 	if d, ok := rpc.(canDeserializeCellBlocks); cellsLen > 0 && ok {
+		// the cellblock is what follows the header and the response,
+		// the length in the header can't be larger than that
+		if rest := len(b) - headerLen - responseLen; int64(cellsLen) > int64(rest) {
+			err = RetryableError{fmt.Errorf(
+				"failed to decode the response: cellblock length %d, but only %d bytes left",
+				cellsLen, rest)}
+			return
+		}
 		b := b[size-cellsLen:]
 		if c.compressor != nil {
 			b, err = c.compressor.decompressCellblocks(b)
